@@ -16,6 +16,9 @@ CONSTANTS
   MaxUpdates = 2
   MaxCalls = 2
   NPages = 1
+  ListenOwns = TRUE
+  ResubRace = TRUE
+  GenCheck = TRUE
   ModernUnsub = FALSE
   ForeignUnsub = TRUE
   Stepwise = TRUE
